@@ -136,7 +136,7 @@ Proof.
   destruct w as [l | x y | id ps rr ls b env].
   - apply vrelF_lit_inv in Hv. subst v.
     destruct p; try discriminate Ha; simpl in Hs; try discriminate; inversion Hs; subst; simpl;
-      eexists; split; try reflexivity; try (destruct l as [z|[|]| | | |]; constructor).
+      eexists; split; try reflexivity; try (destruct l as [z|[|]| | | | |o|nd]; constructor).
   - destruct (vrelF_pair_inv _ _ _ _ _ Hv) as (a & vx & vy & -> & Hn & H1 & H2).
     destruct p; try discriminate Ha; simpl in Hs; try discriminate; inversion Hs; subst; simpl; rewrite ?Hn;
       eexists; split; try reflexivity; auto; constructor.
@@ -155,8 +155,8 @@ Lemma prim2_okF : forall p h cs v1 v2 w1 w2 r stk0,
 Proof.
   intros p h cs v1 v2 w1 w2 r stk0 Ha Hp H1 H2 Hs.
   destruct p; try discriminate Ha; try discriminate Hp.
-  all: try (destruct w1 as [[a| | | | |] | |]; simpl in Hs; try discriminate;
-            destruct w2 as [[b| | | | |] | |]; simpl in Hs; try discriminate;
+  all: try (destruct w1 as [[a| | | | | | |] | |]; simpl in Hs; try discriminate;
+            destruct w2 as [[b| | | | | | |] | |]; simpl in Hs; try discriminate;
             apply vrelF_lit_inv in H1; apply vrelF_lit_inv in H2; subst; inversion Hs; subst; simpl;
             eexists; exists []; rewrite app_nil_r; split; [reflexivity | constructor]).
   simpl in Hs. inversion Hs; subst. simpl. eexists; exists [HPair v1 v2]. split; [reflexivity|].
@@ -168,7 +168,7 @@ Lemma sval_false_decF : forall h cs v w, vrelF h cs v w ->
   (w = SLit (LBool false) /\ v = VLit (LBool false)) \/ (w <> SLit (LBool false) /\ v <> VLit (LBool false)).
 Proof.
   intros h cs v w H. destruct H as [l | a vx vy x y Hn H1 H2 | ].
-  - destruct l as [z|[|]| | | |]; try (right; split; congruence). left; auto.
+  - destruct l as [z|[|]| | | | |o|nd]; try (right; split; congruence). left; auto.
   - right; split; congruence.
   - right; split; congruence.
 Qed.
@@ -681,7 +681,7 @@ Proof.
   - destruct e as [l | x o | x o e1 | t p e2 | es | id ps r ls sv fv b | g args | p args]; try discriminate Hp.
     + (* Lit *)
       rewrite eval_Lit in He. inversion He; subst. split; [apply store_ext_refl|].
-      exists (VLit l), []. split; [constructor|].
+      exists (VLit (lit_value l)), []. split; [constructor|].
       simpl generate in *. eapply leaf_outcome; eauto. eapply step_push; eauto.
     + (* Ref *)
       destruct o as [|m].
@@ -737,7 +737,7 @@ Proof.
               ** solve_len.
       * (* then branch *)
         assert (Hep : eval f p env st1 = SVal v st').
-        { destruct vt as [[z|[|]| | | |] | |]; try exact He; congruence. }
+        { destruct vt as [[z|[|]| | | | |o|nd] | |]; try exact He; congruence. }
         pose proof (step_jump_unless_true s1 _ _ _ v1 (stk s) Hat2 eq_refl Hv) as Hstep.
         set (s2 := upd s1 (stk s) (S (ip s1)) (heap s1)) in *.
         assert (Hat3 : at_code s2 (pre ++ ct ++ [IJumpUnless (S (length cp))]) cp ([IJump (length cf)] ++ cf ++ post)).
